@@ -35,7 +35,7 @@ inductive Which where | managers | components
   deriving DecidableEq, Repr
 
 inductive CFn where
-  | isinstance | hasattr
+  | isinstance | hasattr | len
   | pop (r : Nat) | extend (r : Nat) | append (r : Nat)
   | flatten | applyDefaults | ocsAdd (k : Which) | ocsAppend (k : Which)
   | setupAll | setupObj (n : String)
@@ -106,6 +106,7 @@ def isInst : CV → CV → Bool
 
 def cGlobal (n : String) : M CV :=
   if n == "isinstance" then pure (.fn .isinstance) else if n == "hasattr" then pure (.fn .hasattr)
+  else if n == "len" then pure (.fn .len)
   else if n == "list" || n == "tuple" || n == "Component" || n == "Manager" then pure (.cls n)
   else throw "NameError"
 
@@ -134,6 +135,8 @@ def cPrim (f : CFn) (args : List CV) : M CV := match f, args with
   | .isinstance, [v, .list cs] => pure (.bool (cs.any (isInst v)))
   | .isinstance, [v, c] => pure (.bool (isInst v c))
   | .hasattr, [.comp _, .str a] => pure (.bool (a == "name" || a == "sub_components"))
+  | .len, [.lst ts] => pure (.int ts.length)
+  | .len, [.ref r] => do let st ← get; pure (.int (st.heap r).length)
   | .pop r, [] => do
     let st ← get
     match (st.heap r).reverse with
@@ -156,6 +159,14 @@ def cPrim (f : CFn) (args : List CV) : M CV := match f, args with
     set { st with sim := setupOne st.sc st.sim n }
     if n == st.boom then throw "UserError" else pure .none
   | _, _ => throw "TypeError"
+
+def cCmp (callee : Option (World M CV)) (op : String) (l r : CV) : M CV := match op, l, r, callee with
+  | "In", v, .ocs k, some w => Gen.Src.ocsContains.run w [("self", .ocs k), ("component", v)]
+  | "In", .str n, .list vs, _ => pure (.bool (vs.any (isStr n)))
+  | "In", .str _, .ref _, _ => pure (.bool false)
+  | "Eq", .int a, .int b, _ => pure (.bool (a == b))
+  | "Gt", .int a, .int b, _ => pure (.bool (decide (a > b)))
+  | _, _, _, _ => throw "TypeError"
 
 def cTruthy : CV → M Bool
   | .none => pure false
@@ -213,11 +224,7 @@ def cworldWith (fuel : Nat) (callee : Option (World M CV)) : World M CV where
     | .cls c, [.lst ts], [], _ => if c == "list" then pure (.lst ts) else throw "TypeError"
     | .fn f, args, [], _ => cPrim f args
     | _, _, _, _ => throw "TypeError"
-  cmp op l r := match op, l, r, callee with
-    | "In", v, .ocs k, some w => Gen.Src.ocsContains.run w [("self", .ocs k), ("component", v)]
-    | "In", .str n, .list vs, _ => pure (.bool (vs.any (isStr n)))
-    | "In", .str _, .ref _, _ => pure (.bool false)
-    | _, _, _, _ => throw "TypeError"
+  cmp := cCmp callee
   bin := cBin
   neg _ := throw "TypeError"
   sub := cSub
@@ -308,8 +315,8 @@ theorem flatten_run (fuel : Nat) (callee : Option (World M CV)) (ts : List Tree)
         simp [flAbs, this] at hc
       | cons t below =>
         rcases t with ⟨n, d, cs⟩
-        pystep [cworldWith, cGetAttr, cPrim, hcm, hr]
-        pystep [cworldWith, cGlobal, cGetAttr, cPrim, cSub, cTruthy, alloc, isInst, ho, hcm, hr]
+        -- however many statements the body has (a guard that does not apply to a component, a renamed local …)
+        repeat pystep [cworldWith, cGlobal, cGetAttr, cPrim, cSub, cTruthy, cCmp, alloc, isInst, ho, hcm, hr]
         refine ⟨_, _, by rw [runM_block_nil], ?_, ?_⟩
         · simp [FInv, ho, hcm, hsim]; omega
         · have h1 : st.next + 1 ≠ st1.next := by omega
@@ -356,15 +363,15 @@ theorem contains_run (fuel : Nat) (callee : Option (World M CV)) (k : Which) (t 
   rw [runM_func]
   simp only [Gen.Src.ocsContains]
   pystep [cworldWith, cGlobal, cPrim, cTruthy]
-  pystep [cworldWith, cGetAttr, cIter]
+  pystep [cworldWith, cCmp, cGetAttr, cIter]
   rw [runM_compList_map _ CV.named CV.str (by intro a st; simp)]
   cases hn : names st.sim k with
   | nil =>
-    simp [cNewList, alloc]
+    simp [cNewList, alloc, cCmp]
   | cons a l =>
     have := any_isStr t.name (a :: l)
     simp only [List.map_cons, List.any_cons, List.any_map] at this
-    simp only [cNewList, List.map_cons, runM_pure, List.any_cons, List.any_map, this]
+    simp only [cNewList, cCmp, List.map_cons, runM_pure, List.any_cons, List.any_map, this]
     exact ⟨st, by simp, rfl⟩
 
 
@@ -384,12 +391,12 @@ theorem add_run (fuel : Nat) (callee : Option (World M CV)) (t : Tree) (st : St)
   cases hc : st.sim.components.contains t.name with
   | true =>
     rw [hc] at h1
-    pystep [cworldWith, cTruthy, h1]
+    pystep [cworldWith, cCmp, cTruthy, h1]
     have hm : t.name ∈ st.sim.components := by simpa using hc
     exact ⟨_, _, rfl, by simp [OrderedSet.add, hm, hs1]⟩
   | false =>
     rw [hc] at h1
-    pystep [cworldWith, cTruthy, h1]
+    pystep [cworldWith, cCmp, cTruthy, h1]
     pystep [cworldWith, cGetAttr, cPrim]
     have hm : ¬ t.name ∈ st.sim.components := by simpa using hc
     exact ⟨_, _, rfl, by simp [OrderedSet.add, hm, hs1, cworldWith]⟩
